@@ -102,7 +102,7 @@ def derive_seeds(base, n):
 
 
 def main(argv):
-    sys.path.insert(0, "/repo")
+    sys.path.insert(0, os.environ.get("RSIM_REPO", "/repo"))
     if argv and argv[0] == "--replay":
         return replay_main(argv[1])
     if argv and argv[0] == "--digests":
